@@ -3,7 +3,7 @@
 (a) coordinate initialisation: n in {1,2,3} x rhobeg x npt in [n+1,2n+1] x bound gap x EVERY per-coordinate placement of
     x0 {interior, on lower/upper, one ulp inside either, 0.5% and 2% of rhobeg from either (both sides of the 1% switch),
     infeasible below/above, unbounded}; solve is run with maxfun = npt and the recorded evaluations are the initial set.
-(b) direction generators: all active-set patterns {lower==0, upper==0, tight, far}^n, n<=4 x requested counts 1..2n+2
+(b) direction generators: all active-set patterns {lower==0, upper==0, tight, active and narrow (either side), far}^n, n<=4 (narrow: n<=3) x requested counts 1..2n+2
     x RNG answers from a fixed menu (identity, rotation, nearly parallel, sign-flipped, bank streams).
 (c) n = 6 (quick), n in {5, 6, 8} (thorough) for both layers: every assignment with at most two coordinates departing
     from the default (interior x0 / far bounds), all position pairs.
@@ -21,7 +21,7 @@ MOD = "vf.props.C14"
 PLACEMENTS = ["interior", "on_lo", "on_hi", "ulp_lo", "ulp_hi", "0.5%_lo", "0.5%_hi", "2%_lo", "2%_hi", "below", "above", "free"]
 RHOBEGS = [1e-3, 0.1, 1.0]
 GAPS = [2.0000001, 2.5, 10.0]
-PATTERNS = ["lo0", "hi0", "tight", "far"]
+PATTERNS = ["lo0", "hi0", "tight", "lo0_narrow", "hi0_narrow", "far"]     # "far" stays last (the default coordinate)
 RNG_MENUS = ["identity", "rot45", "nearpar", "flip", "bank0", "bank1"]
 
 
@@ -44,6 +44,8 @@ def cases(tier, salts):
                             out.append({"k": "init", "n": n, "rhobeg": rhobeg, "gap": gap, "npt": npt, "pl": list(pl), "salt": salt})
         for n in (1, 2, 3, 4):
             for pat in itertools.product(range(len(PATTERNS)), repeat=n):
+                if n == 4 and any(PATTERNS[t].endswith("narrow") for t in pat):
+                    continue     # active-and-narrow coordinates: full product up to n = 3
                 for cnt in range(1, 2 * n + 3):
                     for menu in (RNG_MENUS if salt == 0 else RNG_MENUS[4:]):
                         if n == 4 and tier == "quick" and menu in ("rot45", "flip"):
@@ -227,6 +229,10 @@ def _check_dirs(case):
             lower[j], upper[j] = -5.0 * delta, 0.0
         elif p == "tight":
             lower[j], upper[j] = -0.3 * delta, 0.4 * delta
+        elif p == "lo0_narrow":          # active AND narrower than the requested length
+            lower[j], upper[j] = 0.0, 0.6 * delta
+        elif p == "hi0_narrow":
+            lower[j], upper[j] = -0.6 * delta, 0.0
         else:
             lower[j], upper[j] = -1e20, 1e20
     saved = np.random.normal
